@@ -502,6 +502,9 @@ func (w *World) eventEnabled(ev string) bool {
 		return pc != nil && pc.conn != nil && !pc.conn.IsClosed() && !pc.conn.Peer.IsClosed()
 	case "h", "b":
 		return w.P != nil && w.P.conn != nil && !w.P.conn.IsClosed() && !w.P.conn.Peer.IsClosed()
+	case "burst":
+		pc := w.connOf(p[1])
+		return !w.bursted && pc != nil && pc.conn != nil && !pc.conn.IsClosed() && !pc.conn.Peer.IsClosed()
 	case "inv", "tx", "uping":
 		pc := w.connOf(p[1])
 		return pc != nil && pc.conn != nil && !pc.conn.IsClosed() && !pc.conn.Peer.IsClosed()
